@@ -44,7 +44,7 @@ func checkC33(c *core.Ctx) {
 	c.Decide("PipelineHandler.Run: every path to the advance of LastLogID and to the notification on the ingested channel passes the receive of the exporter's answer, whose non-nil arm never falls through (retry or stop) and whose sibling select arms all leave; the answer is exactly the error returned by exporter.Accept on the whole fetched batch; the batch is fetched with id > LastLogID in ascending id order and the new LastLogID is the id of its last element, which is also the value notified; manager: the persisted last_log_id is written only by the subscription goroutine of startPipeline with values received from the channel handed to Run, by the single UPDATE of StorePipelineState on that pipeline's row, and by ResetPipeline which sets it to nil; ResetPipeline holds the manager lock, stops a running pipeline first (failure ends the reset), and restarts with the row returned by the update; pipelines are (re)started from the stored row")
 	c.NotDecided("eventual delivery and the stop/persist race (schedules and liveness); what the exporter does with a batch; restarts across processes")
 	ruleAckBeforeAdvance(c)
-	rulePipelineBatchShape(c)
+	rulePipelineBatchShapeTolerant(c)
 	rulePipelineStateWriters(c)
 	ruleResetPipeline(c)
 	ruleBatcherItemErrors(c)
